@@ -52,10 +52,12 @@ import (
 //     terminating parse is recorded in the evidence (max_stall_ratio, in units of n+16) and is
 //     more than 100 times smaller;
 //   - backtracking bound (parser entry points): the position of the top-level parser moves
-//     backwards at most K(n) = 100·(n+16) times. The parser backtracks legitimately (a
+//     backwards at most K(n) = 10·(n+16) times. The parser backtracks legitimately (a
 //     `$a, …` list is parsed ahead and rewound once per element), about once per token at
-//     most; the largest count observed on a terminating parse, in units of n+16, is recorded
-//     in the evidence (max_backtrack_ratio). Speculative parsing that nests (each level
+//     most (at most 0.33 per byte for a flat `$a,$a,…` list; at most 0.1 per byte observed
+//     over the corpus, generated and byte-mutated inputs, see max_backtrack_ratio_by_family
+//     in the evidence; the nest family there includes terminating instances of the
+//     exponential defect itself). Speculative parsing that nests (each level
 //     parsing the rest twice) rewinds exponentially often and is caught here long before the
 //     hard bound.
 const (
@@ -63,7 +65,7 @@ const (
 	stallC      = 2000
 	stallSpread = 8
 	pastEndRun  = 10000
-	backC       = 100
+	backC       = 10
 )
 
 var budgetCur = func() float64 {
@@ -245,7 +247,10 @@ func lcp(a, b []string) int {
 	return n
 }
 
-const abortSamples = 600
+const (
+	abortSamples = 600
+	deepStack    = 4000 // frames
+)
 
 // stepState is the per-call state of the step handler.
 type stepState struct {
@@ -338,6 +343,19 @@ func installBudget(n int, pos func() int) {
 		nm, fl := callerFrames(2)
 		if samples == 0 {
 			names, files = nm, fl
+			if len(nm) >= deepStack {
+				// recursion deeper than the sampling buffer (or too deep to symbolise hundreds of
+				// times): the frames shared by all samples cannot be computed; name the innermost
+				// repository frame of this first sample, which is taken at a deterministic step
+				site := "unknown"
+				for i := len(nm) - 1; i >= 0; i-- {
+					if repoFrame(nm[i]) && !strings.HasSuffix(nm[i], ".(*Parser).current") {
+						site = siteOf(nm[i], fl[i])
+						break
+					}
+				}
+				panic(stepAbort{site: site, chain: fmt.Sprintf("(call stack of %d+ frames, not sampled)", len(nm)), steps: st.total, why: why, reason: reason})
+			}
 		} else {
 			k := lcp(names, nm)
 			names, files = names[:k], files[:k]
